@@ -349,7 +349,9 @@ func (l *lruCache[K]) Snapshot() []*discovery.Resource {
 	iKeys := l.store.Keys()
 	res := make([]*discovery.Resource, len(iKeys))
 	for i, ik := range iKeys {
-		v, ok := l.store.Get(ik)
+		// Peek, not Get: Get moves the entry to the front of the LRU list, which is a write and must not
+		// happen under the read lock (see get).
+		v, ok := l.store.Peek(ik)
 		if !ok {
 			continue
 		}
